@@ -154,6 +154,8 @@ Next_Insecure ==
   \/ \E a \in {[class |-> "entry", r |-> "V1", d |-> "top", n |-> "b"], [class |-> "entry", r |-> "R", d |-> "d", n |-> "b"]} :
         Put(<<a>>, [force |-> FALSE, inter |-> "off", td |-> "none", hf |-> FALSE, hfenv |-> FALSE]) /\ Emit
   \/ List("none") /\ Emit
+  \/ List("top:V1") /\ Emit
+  \/ \E days \in {-1, 1}, dry \in BOOLEAN : Empty([days |-> days, dry |-> dry, consent |-> "auto", td |-> "top:V1"]) /\ Emit
   \/ \E f \in {[k |-> "root"], [k |-> "dir", r |-> "V1", d |-> "top"], [k |-> "dir", r |-> "V1", d |-> "d"]},
         sort \in {"date", "path", "none"},
         reply \in {[k |-> "idx", idx |-> <<0>>], [k |-> "idx", idx |-> <<1>>], [k |-> "idx", idx |-> <<2>>], [k |-> "idx", idx |-> <<0, 1>>], [k |-> "eof"]} :
